@@ -44,7 +44,7 @@ async fn start_ctarget() -> (std::net::SocketAddr, Arc<TState>, tokio::sync::mps
     (addr, st, tx)
 }
 
-async fn connect_via(via: &str, front: &str, target: std::net::SocketAddr) -> Option<TcpStream> {
+pub async fn connect_via(via: &str, front: &str, target: std::net::SocketAddr) -> Option<TcpStream> {
     let mut c = TcpStream::connect(front).await.ok()?;
     let _ = c.set_nodelay(true);
     if via == "socks5" {
